@@ -92,8 +92,23 @@ def r12(ctx):
         n += 1
         w = where(s.body)
         ret = norm(s.ret)
-        fin = norm(mk_field_safe(s.final.get(('p', 1), SELF), 'moves'))
-        pushes = [c for c in s.calls if c['callee'] == PUSH]
+        fin_obj = s.final.get(('p', 1), SELF)
+        if any(isinstance(x, tuple) and x and x[0] == 'after' and x[2].startswith('game::Game::') for x in walk(fin_obj)):
+            # the push happens inside a private helper (`fn push_unless_over(&mut self, a) -> bool`): apply its effect
+            try:
+                priv = lambda k: not (ctx.facts().fns.get(k) or {}).get('pub', True)
+                r0 = norm(s.ret)
+                for x in walk(fin_obj):
+                    if isinstance(x, tuple) and x and x[0] == 'after' and priv(x[2]) and r0[0] == 'call' and r0[1] == x[2]:
+                        rv = inliner(ctx).apply_ret(x)
+                        if rv is not None:
+                            ret = norm(inliner(ctx).fold(rv))
+                        break
+                fin_obj = inliner(ctx).inline(fin_obj, only=priv)
+            except Exception:
+                pass
+        fin = norm(mk_field_safe(fin_obj, 'moves'))
+        pushes = [c for c in expanded_calls(ctx, s, lambda c_: c_['callee'] == PUSH, allow_conditional=True) if c['callee'] is not None]
         ok1 = ok2 = True
         npush_paths = 0
         for conds, leaf, logs in paths_joint(ret, fin):
@@ -192,6 +207,17 @@ def r3(ctx):
     for fld, allowed in (('start_pos', set()), ('moves', set(MUTATORS))):
         ws = {k for k in eff.direct if (G, fld) in eff.direct[k] and '::{' not in k}
         extra = ws - allowed
+        # a private helper whose only callers are allowed writers acts on their behalf (its pushes are attributed to them
+        # by R1/R2, which look through it)
+        changed = True
+        while changed and fld == 'moves':
+            changed = False
+            for k in sorted(extra):
+                fn_ = f.fns.get(k) or {}
+                callers = {c_ for c_, b_ in f.bodies.items() if '::{' not in c_ and any(t_.get('callee') == k for _, t_ in b_.calls())}
+                if not fn_.get('pub') and callers and callers <= (allowed | (ws - extra)):
+                    extra.discard(k)
+                    changed = True
         if extra:
             ctx.violation(R, 'writers:%s:%s' % (fld, ','.join(sorted(extra))), 'Game.%s is written or mutably borrowed by %s' % (
                 fld, sorted(extra)), where(f.body(sorted(extra)[0])))
@@ -306,9 +332,17 @@ def r4(ctx, rule='C10.R4', only_status=False):
                         k = action_const(m['a'])
                         if k is not None:
                             return as_bool(last == k, vals)
-                    m = match(call('<color::Color as core::cmp::PartialEq>::eq', STM, V('c')), c)
+                    m = match(call('<color::Color as core::cmp::PartialEq>::eq', STM, V('c')), c) or \
+                        match(call('<color::Color as core::cmp::PartialEq>::eq', V('c'), STM), c)
                     if m is not None and m['c'][0] == 'enum':
                         return as_bool(stm == m['c'][2], vals)
+                    m = match(call('<color::Color as core::cmp::PartialEq>::ne', STM, V('c')), c) or \
+                        match(call('<color::Color as core::cmp::PartialEq>::ne', V('c'), STM), c) or \
+                        match(call('core::cmp::PartialEq::ne', STM, V('c')), c) or match(call('core::cmp::PartialEq::ne', V('c'), STM), c)
+                    if m is not None and m['c'][0] == 'enum':
+                        return as_bool(stm != m['c'][2], vals)
+                    if match(('discr', STM), c) is not None:
+                        return f.enum_discr('color::Color', stm)
                     # `self.moves.last()` idioms: `?`, is_some/is_none, match on the option / on the action
                     isact = lambda e: any(match(p_, e) is not None for p_ in LASTACTS)
                     if match(('discr', BRANCH), c) is not None:
@@ -371,7 +405,9 @@ def r5(ctx):
             l = loops[0]
             src = norm(l['source']) if l['source'] is not None else None
             r = s.ret
-            if src is not None and match(call('core::slice::<impl [T]>::iter', MOVES), src) is not None and r[0] == 'loop':
+            LEN_ = call('alloc::vec::Vec::<T, A>::len', MOVES)
+            by_index = src is not None and match(('agg', 'core::ops::range::Range', 'Range', (('start', ('int', 0, 'usize')), ('end', LEN_))), src) is not None
+            if src is not None and (match(call('core::slice::<impl [T]>::iter', MOVES), src) is not None or by_index) and r[0] == 'loop':
                 root = r[2]
                 init = norm(s.exit[l['pre']].get(root)) if l['pre'] is not None else None
                 latch = loop_latch_value(s, l, root)
@@ -380,7 +416,8 @@ def r5(ctx):
                     lv = norm(latch)
                     cur = ('loop', l['header'], root)
                     d = ctx.facts().enum_discr(ACT, 'MakeMove')
-                    for EE in (E, ('mem', ('h', E))):
+                    cands = (E, ('mem', ('h', E))) if not by_index else (('index', MOVES, E),)
+                    for EE in cands:
                         mv = ('field', ('variant', EE, 'MakeMove'), '0')
                         step = call('board::Board::make_move_new', cur, mv)
                         pat = ('ite', ('discr', EE), ((d, step), ('otherwise', cur)))
@@ -497,6 +534,9 @@ def r7(ctx):
     def mk_decide(nlen, last, prev_is_offer, unknown):
         def decide(cnd, vals):
             cn = norm(cnd)
+            if any(isinstance(x, tuple) and x and x[0] == 'call' and x[1].startswith('game::Game::') and
+                   x[1] not in ('game::Game::result', 'game::Game::side_to_move', 'game::Game::current_position') for x in walk(cn)):
+                cn = inline_private(ctx, cn)          # e.g. a private `fn last_action(&self) -> Action`
             if game_open(cn, [0]) or game_open(cn, ['otherwise']):
                 # the guard on result(): the game is open on the paths of interest
                 return 0 if match(RESULT_SOME, cn) is not None or match(('discr', RESULT), cn) is not None else 'otherwise'
